@@ -574,6 +574,18 @@ func signShape(t *mTx, k *mKey, idx []int) (changed bool, err error) {
 }
 
 // nonDataScript returns n pseudo-random bytes that are not a data-carrier script.
+// nonDataOutputScript is a non-data output script of about n bytes: one time in three an instance
+// of a template the library recognises - an inscription (its envelope and its OP_RETURN tail are
+// part of a standard output, not data-carrier bytes), P2PK, P2SH, multisig.
+func nonDataOutputScript(r *prng.R, n int) []byte {
+	if r.Chance(1, 3) {
+		if t := gen.StandardScript(r); !refmoney.IsData(t) {
+			return t
+		}
+	}
+	return nonDataScript(r, n)
+}
+
 func nonDataScript(r *prng.R, n int) []byte {
 	s := r.Bytes(n)
 	if n >= 3 && r.Chance(1, 6) { // looks like data once decoded into parts, is not data by its bytes
